@@ -15,6 +15,7 @@ from pyvc.interp import Obj, PyRaise, ATTR_HOOKS
 from . import uni, biv, gm, vine
 from .uni import term
 
+_REPLAY_CACHE = {}
 LEVEL = 'proof'
 TRUSTED = ['observational equality is checked on the outputs of the query / sample methods for arbitrary (symbolic) queries, '
            'and on the fitted parameter dictionary; two models with equal outputs for all queries are observably identical',
@@ -213,6 +214,17 @@ def build(chk):
 
 
 def vine_replay(kind, vt, d):
+    """the native driver depends only on its arguments: run it once per group of obligations"""
+    inner = _vine_replay_uncached(kind, vt, d)
+
+    def replay(env, _key=('vine_replay', kind, vt, d)):
+        if _key not in _REPLAY_CACHE:
+            _REPLAY_CACHE[_key] = inner(env)
+        return _REPLAY_CACHE[_key]
+    return replay
+
+
+def _vine_replay_uncached(kind, vt, d):
     def replay(env):
         import warnings
         import numpy as np
